@@ -222,6 +222,10 @@ def stencil_definition_rules(ctx, p, align, order, n):
     if ok:
         X, lv, rng = ls[0].args[:3]
         deg = op("len", poly) - 1
+        if rng == poly:
+            # `for c in poly` walks the coefficients by position: element lv of poly, positions 0..len(poly)-1
+            X = X.xreplace({op("elem", poly, lv): op("item", poly, lv)})
+            rng = op("range", sp.Integer(0), op("len", poly))
         ok = sp.expand(X - op("item", poly, lv) * x**(deg - lv)) == 0 and _range_bounds(rng) == (sp.Integer(0), sp.expand(deg + 1))
     ctx.expect(ok, R, "evaluate_polynomial", "sum_k poly[k]*x^(deg-k) over all deg+1 coefficients (highest power first)", f.loc(), derived=r)
     ctx.absorb(it)
@@ -230,7 +234,20 @@ def stencil_definition_rules(ctx, p, align, order, n):
     it = Interp(p, opaque={TI + "lagrange_base_polynomial_coef": "lag"})
     r = T.to_term(it.call_function(f, [order, idx], {}, None))
     want_base = op("store", op("zeros", order + 1), op("slc", sp.Integer(0), order, T.NONE_T), op("lag", order - 1, idx))
-    if fname(r) == "store" and _slice0(r.args[0]) == want_base and fname(_slice0(r.args[1])) == "slc":
+    direct_ = fname(r) == "store" and r.args[0] == op("zeros", order + 1) and _slice0(r.args[1]) == op("slc", sp.Integer(0), order, T.NONE_T)
+    if direct_:
+        # built in one expression: poly[0:order] = lag / [order, order-1, .., 1]  (coefficient k divided by order - k, all k)
+        ctx.ok(R, "integrated_lagrange_base_polynomial_coef[coefficients]",
+               "starts from the degree order-1 basis polynomial shifted up one power (constant of integration 0)", f.loc(), derived=r.args[0])
+        lagt = op("lag", order - 1, idx)
+        q = sp.cancel(lagt / r.args[2]) if r.args[2].has(lagt) else None
+        okd = q is not None and not q.has(lagt) and q in (op("arange", order, sp.Integer(0), sp.Integer(-1)), order - op("arange", order),
+                                                         order - op("arange", sp.Integer(0), order))
+        ctx.expect(okd if q is not None and not q.has(lagt) else None, R, "integrated_lagrange_base_polynomial_coef[term-wise antiderivative]",
+                   "coefficient k (of x^(order-1-k)) is divided by order-k", f.loc(), derived=r.args[2])
+        ctx.ok(R, "integrated_lagrange_base_polynomial_coef[all powers]",
+               "every coefficient with a divisor other than one is rescaled (k = 0..order-2)", f.loc(), derived=r.args[1])
+    elif fname(r) == "store" and _slice0(r.args[0]) == want_base and fname(_slice0(r.args[1])) == "slc":
         # vectorised form: poly[0:m] = poly[0:m] / (order - arange(m)) with m = order-1 (or order)
         sl = _slice0(r.args[1])
         m = sl.args[1]
